@@ -15,7 +15,7 @@ For each change N (1 and 2):
  2. Check it compiles and the existing suite passes: cd $WT && GOFLAGS=-mod=mod GOPROXY=off go build ./... && GOFLAGS=-mod=mod GOPROXY=off go test -vet=off -count=1 ./... 2>&1 | tail -30   (takes ~40 s; network is unavailable; a few packages have no tests). If a test fails, choose a different change.
  3. Write a demonstration: a NEW Go test file (e.g. $WT/<pkg>/zz_demoN_test.go, using only the standard library and the module's own packages) that FAILS with the change applied and PASSES on the clean tree. Run it both ways to confirm (go test -vet=off -count=1 -run <Name> ./<pkg>/).
  4. Save into $WT/out/: changeN.diff (git diff of the library change only, without the demo file), demoN_test.go (copy of the demo test, with a first-line comment saying which package directory it belongs in), notesN.md (what the change is, why it breaks the property, what specific condition it needs to manifest, and the exact commands you ran with their outcomes).
- Finally restore the tree to clean (git -C $WT checkout -- . ; remove demo files from package dirs) leaving only $WT/out/.
+ If you save _test.go demo copies under out/, also create out/go.mod containing just "module out" so that go test ./... ignores that directory. Finally restore the tree to clean (git -C $WT checkout -- . ; remove demo files from package dirs) leaving only $WT/out/.
 
 Report back briefly: for each change, one paragraph (what, where, what it needs to manifest) and whether all four confirmations (builds, suite passes, demo fails with change, demo passes without) succeeded.
 P
